@@ -43,7 +43,7 @@ def crossing_ops():
         ("reset_index", lambda d: d.reset_index(), False),
         ("reset_index-drop", lambda d: d.reset_index(drop=True), False),
         ("sort_values", lambda d: d.sort_values("b"), False),
-        ("set_index", lambda d: d.set_index("d"), False),
+        ("set_index", lambda d: d.set_index("d") if hasattr(d, "npartitions") else d.set_index("d").sort_index(kind="stable"), False),
         ("repartition", lambda d: d.repartition(npartitions=2) if hasattr(d, "npartitions") else d, True),
         ("shuffle", lambda d: d.shuffle("b") if hasattr(d, "npartitions") else d, False),
         ("filter-first", lambda d: d[d.c > 0], True),
@@ -110,8 +110,8 @@ def scenario_sweep(run):
             pdf = tables(run.rng, nulls, nullable)
             if opname == "astype-pred-col" and nulls:
                 continue  # casting NaN to int raises in pandas itself
-            if opname == "set_index" and nulls:
-                continue  # nulls in the index: outside what dask supports
+            if opname in ("set_index", "sort_values") and nulls:
+                continue  # nulls in the index / sort key: outside what dask supports (quantile divisions)
             n += 1
             case = {"op": opname, "pred": pname, "consumer": cname, "nulls": nulls, "nullable": nullable, "data": pdf.to_dict(orient="list")}
             run.count(("scenario", opname, pname, cname, nulls, nullable))
@@ -238,7 +238,7 @@ def targeted(run):
         "astype-truncation": lambda d: (lambda y: y[y.a == 1])(d.astype({"a": "int64"})),
         "astype-all-cols": lambda d: (lambda y: y[y.a > 1])(d.astype("int64")),
         "sort-then-cumsum-pred": lambda d: (lambda y: y[y.c.cumsum() > 2])(d.sort_values("b")),
-        "set_index-then-cumsum-pred": lambda d: (lambda y: y[y.c.cumsum() > 2])(d.set_index("b")),
+        "set_index-then-cumsum-pred": lambda d: (lambda y: y[y.c.cumsum() > 2])(d.set_index("b") if hasattr(d, "npartitions") else d.set_index("b").sort_index()),
         "sort-then-shift-pred": lambda d: (lambda y: y[y.c.shift(1) == 1])(d.sort_values("b")),
         "fillna-then-pred": lambda d: (lambda y: y[y.a > 1])(d.fillna(5)),
         "abs-then-pred": lambda d: (lambda y: y[y.a > 1])((d - 2).abs()),
